@@ -993,7 +993,7 @@ class DirectPtychography(RNGMixin, AutoSerialize):
         if state.optimized_rotation_angle is None and rotation_angle is not None:
             state.optimized_rotation_angle = rotation_angle  # ty:ignore[invalid-assignment]
 
-        state.optimized_aberrations = best
+        state.optimized_aberrations = validate_aberration_coefficients(best)
         state.optimized_aberrations = state.current_aberrations(fixed_override_aberrations)
         state.study = study
 
@@ -1086,7 +1086,7 @@ class DirectPtychography(RNGMixin, AutoSerialize):
         if best_params is not None:
             best_params = best_params.copy()
             state.optimized_rotation_angle = best_params.pop("rotation_angle", None)
-            state.optimized_aberrations = best_params
+            state.optimized_aberrations = validate_aberration_coefficients(best_params)
 
         if state.optimized_rotation_angle is None and rotation_angle is not None:
             state.optimized_rotation_angle = rotation_angle  # ty:ignore[invalid-assignment]
@@ -1211,7 +1211,9 @@ class DirectPtychography(RNGMixin, AutoSerialize):
         vbf_stack = self.corrected_stack.clone()
 
         # Get initial shifts
-        lateral_shifts = self._return_lateral_shifts(rotation_angle, aberration_coefs, bf_mask)
+        lateral_shifts = self._return_lateral_shifts(
+            rotation_angle, validate_aberration_coefficients(aberration_coefs), bf_mask
+        )
         initial_shifts = lateral_shifts / scan_sampling
 
         if alignment_method == "reference":
